@@ -120,7 +120,8 @@ class DiscreteFourierTransformBase(Operator):
 
         # Calculate the range
         ran_shape = reciprocal_grid(
-            domain.grid, shift=False, halfcomplex=halfcomplex, axes=axes).shape
+            domain.grid, shift=False, halfcomplex=self.halfcomplex,
+            axes=axes).shape
 
         if range is None:
             impl = domain.tspace.impl
